@@ -280,7 +280,7 @@ CHECKS['C17'] = dict(
                                  'big-endian byte order paths of blake2/endian.h are not reachable on this host'],
     stages=[
         dict(name='portable', harness=H('c17', ['harness/c17_portable.cpp'], ldflags=PROG_LD), env=lambda V: {'VERIF_PORTABLE_SO': V.ensure_portable_so()},
-             plan={'quick': 'functions=400000,programs=320,hashes=16', 'thorough': 'functions=50000000,programs=8000,hashes=320'}),
+             plan={'quick': 'functions=400000,programs=320,hashes=16', 'thorough': 'functions=100000000,programs=24000,hashes=960'}),
     ],
 )
 
